@@ -126,3 +126,4 @@ scan_harness!(c01_scan_untagged, None, None, false, false);
 scan_harness!(c01_scan_other_tag, Some("b"), Some("a"), true, false);
 scan_harness!(c01_scanall_tagged_first_off, Some("a"), None, false, true);
 scan_harness!(c01_scanall_tagged_first_on, Some("a"), None, true, true);
+
